@@ -84,12 +84,99 @@ fn gen_exemptions(r: &mut crate::rng::Rng) -> Vec<(u16, Decimal)> {
     }
 }
 
+/// `Config::load_with_overrides` as the CLI uses it: `./config.toml`, then
+/// `~/.config/cgt-tool/config.toml`, each replacing or adding years; compared with the model's
+/// `loadWithOverrides` (driver command `cfg`) year by year through `cgt-tool report --year Y --format json`.
+fn config_overrides(ctx: &mut Ctx) {
+    use crate::cli;
+    if !cli::available() { ctx.ev.notes.push("cgt-tool binary not built: override-file configurations not exercised".into()); return; }
+    let n = ctx.n(10, 150);
+    let mut r = crate::rng::Rng::new(ctx.seed ^ 0xC04C);
+    let years: Vec<i64> = vec![2012, 2013, 2014, 2019, 2023, 2024, 2025, 2026, 2031];
+    // one share sold in each probed tax year
+    let mut ledger = String::from("2009-01-05 BUY AAA 1000 @ 1 FEES 0\n");
+    for y in &years { ledger.push_str(&format!("{y}-06-01 SELL AAA 1 @ 2 FEES 0\n")); }
+    #[derive(Clone)]
+    enum F { Absent, Malformed, Table(Vec<(i64, Decimal)>) }
+    let gen_file = |r: &mut crate::rng::Rng| -> F {
+        match r.below(6) {
+            0 => F::Absent,
+            1 => F::Malformed,
+            _ => {
+                let mut t: Vec<(i64, Decimal)> = Vec::new();
+                for _ in 0..(1 + r.below(4)) {
+                    let y = if r.chance(1, 8) { 70000 } else { *r.pick(&years) };
+                    if t.iter().any(|e| e.0 == y) { continue; }
+                    let amt = if r.chance(1, 4) { Decimal::new(r.range(0, 2_000_000), 2) } else { Decimal::from(r.range(0, 30) * 500 + r.range(0, 3)) };
+                    t.push((y, amt.normalize()));
+                }
+                F::Table(t)
+            }
+        }
+    };
+    let toml = |f: &F| -> Option<String> {
+        match f {
+            F::Absent => None,
+            F::Malformed => Some("[exemptions\n\"2024\" = = 1\n".to_string()),
+            F::Table(t) => Some(format!("[exemptions]\n{}", t.iter().map(|(y, a)| format!("\"{y}\" = {a}\n")).collect::<String>())),
+        }
+    };
+    let wire = |f: &F| -> String {
+        match f {
+            F::Absent | F::Malformed => "!".to_string(),
+            F::Table(t) if t.is_empty() => "-".to_string(),
+            F::Table(t) => t.iter().map(|(y, a)| format!("{y}={}", Q::from_dec(*a).wire())).collect::<Vec<_>>().join(";"),
+        }
+    };
+    for k in 0..n {
+        let (f1, f2) = if k == 0 { (F::Table(vec![(2024, Decimal::from(1234)), (2031, Decimal::from(5000))]), F::Absent) } else { (gen_file(&mut r), gen_file(&mut r)) };
+        let s = cli::Scratch::new();
+        s.write("in.cgt", &ledger);
+        if let Some(t) = toml(&f1) { s.write("config.toml", &t); }
+        if let Some(t) = toml(&f2) { std::fs::create_dir_all(s.path(".config/cgt-tool")).expect("mkdir"); s.write(".config/cgt-tool/config.toml", &t); }
+        let desc = format!("./config.toml: {} ; ~/.config/cgt-tool/config.toml: {}", wire(&f1), wire(&f2));
+        ctx.ev.count("override-configurations");
+        if matches!(f1, F::Table(_)) || matches!(f2, F::Table(_)) { ctx.ev.nontrivial.insert(desc.clone()); }
+        for y in &years {
+            ctx.ev.evaluations += 1;
+            let o = cli::run(&s, &["report", "in.cgt", "--year", &y.to_string(), "--format", "json"]);
+            let got: Option<Q> = if o.code == Some(0) {
+                serde_json::from_slice::<serde_json::Value>(&o.stdout).ok().and_then(|v| v["tax_years"][0]["exempt_amount"].as_str().and_then(|a| a.parse::<Decimal>().ok())).map(Q::from_dec)
+            } else if o.stderr.contains("Unsupported tax year") { None } else {
+                ctx.ev.violation("crash", format!("cgt-tool report --year {y} failed unexpectedly: {}", o.stderr.lines().next().unwrap_or("")), format!("# property C04\n# {desc}\n{ledger}"));
+                continue;
+            };
+            // oracle on the implementation: the last file that names the year, else the embedded table
+            let named = |f: &F| -> Option<Q> { if let F::Table(t) = f { t.iter().find(|e| e.0 == *y).map(|e| Q::from_dec(e.1)) } else { None } };
+            let emb = run_impl::embedded_exemptions().iter().find(|e| e.0 as i64 == *y).map(|e| Q::from_dec(e.1));
+            let want = named(&f2).or(named(&f1)).or(emb);
+            let show = |q: &Option<Q>| q.as_ref().map(|q| q.approx()).unwrap_or_else(|| "unconfigured (error)".into());
+            let same = |a: &Option<Q>, b: &Option<Q>| match (a, b) { (Some(a), Some(b)) => a.eq(b), (None, None) => true, _ => false };
+            if !same(&got, &want) {
+                ctx.ev.violation("oracle", format!("tax year {y}: exemption {} but the configuration ({desc}) gives {}", show(&got), show(&want)), format!("# property C04\n# oracle: tax year {y}: exemption reported {} but configured {}\n# {desc}\n# run: cgt-tool report in.cgt --year {y} --format json (with those two files in place)\n{ledger}", show(&got), show(&want)));
+            }
+            if let Some(m) = ctx.model.as_mut() {
+                let ans = m.ask(&format!("cfg {y} {} {}", wire(&f1), wire(&f2)));
+                ctx.ev.traces_validated += 1;
+                let mv: Option<Q> = if ans == "none" { None } else if let Some(q) = ans.strip_prefix("ok ").and_then(Q::parse) { Some(q) } else {
+                    ctx.ev.violation("correspondence", format!("driver: {ans}"), format!("# property C04\n# {desc}\n"));
+                    continue;
+                };
+                if !same(&got, &mv) {
+                    ctx.ev.violation("correspondence", format!("tax year {y} with {desc}: implementation's exemption {} , model loadWithOverrides {}", show(&got), show(&mv)), format!("# property C04\n# correspondence (Config::load_with_overrides vs Lean loadWithOverrides): year {y}, impl {} model {}\n# {desc}\n{ledger}", show(&got), show(&mv)));
+                }
+            }
+        }
+    }
+}
+
 pub fn run(ctx: &mut Ctx) {
     let prop = "C04";
+    config_overrides(ctx);
     let cfg = GenCfg::standard();
     let n = ctx.n(500, 30_000);
     let cases = matcher_cases(prop, ctx, &cfg, n);
-    ctx.ev.rule = "corpus + repo fixtures + generated ledgers (gains and losses, several sales per day, dividends, cost events) × exemption configurations (embedded, embedded with overrides, all years). Compared: every field of the report against the model's reportFrom applied to the implementation's own legs (so the matcher is outside this property's projection). Non-trivial = accepted report with ≥ 2 disposals in one tax year, or both a gain and a loss; distinct by ledger text + configuration.".into();
+    ctx.ev.rule = "corpus + repo fixtures + generated ledgers (gains and losses, several sales per day, dividends, cost events) × exemption configurations (embedded, embedded with overrides, all years); plus override files through the real CLI: random ./config.toml and ~/.config/cgt-tool/config.toml (absent, unparseable, or tables replacing/adding years incl. a non-u16 key) × 9 probe years, exemption of `report --year Y --format json` vs the last-file-wins rule and vs the model's loadWithOverrides. Compared: every field of the report against the model's reportFrom applied to the implementation's own legs (so the matcher is outside this property's projection). Non-trivial = accepted report with ≥ 2 disposals in one tax year, or both a gain and a loss; distinct by ledger text + configuration.".into();
     let mut r = crate::rng::Rng::new(ctx.seed ^ 0xC04);
     for (name, l) in cases {
         ctx.ev.evaluations += 1;
